@@ -13,9 +13,86 @@ QUOTAS = {
 
 def main(tier, seed):
     return c03.run(PROP, 'c05', tier, seed, QUOTAS[tier], ('C05:',), ('encode',), level='model_checking',
-                   default_checks_are_mine=True,
+                   default_checks_are_mine=True, post=windowed if tier == 'thorough' else None,
                    extra_cov={'functions_encoded': ['<T>::encode', '<T>::encoded_len', 'range_check / SizeOverflow / CountOverflow / '
                                                     'InvalidArrayElementSize / InconsistentConditionValue guards (generated)',
                                                     'rf::ref_wf_<T> (reference well-formedness)'],
                               'not_decided': 'overflow of size/count fields wider than what <= K elements can reach (only the in-range '
                                              'direction is decided for those); see thorough tier windowed-length harnesses'})
+
+
+# --------------------------------------------------------------------------- thorough tier: windowed lengths
+# Overflow of an 8-bit size/count field cannot be reached with K <= 3 elements.  The array is built as
+# vec![0; n] with n symbolic in a window around the limit (element content is irrelevant to the overflow
+# clause: a recorded cut), so the solver still decides every length in the window.
+WINDOW = '''
+    #[kani::proof]
+    #[kani::unwind(%(unwind)d)]
+    fn c05w_%(t)s() {
+        let n: usize = kani::any();
+        kani::assume(n >= %(lo)d && n <= %(hi)d);
+        let v = %(t)s { x: vec![0; n] };
+        let mut out = ArrBuf::<%(cap)d>::new();
+        match v.encode(&mut out) {
+            Ok(()) => {
+                assert!(n * %(es)d <= %(limit)d * %(unit)d, "C05: encode succeeds although the array is larger than its size/count field can express");
+                assert!(out.len == 1 + n * %(es)d && out.buf[0] as usize == n * %(per)d, "C05: written length or size/count octet is wrong");
+                kani::cover!(true, "accepting path");
+            }
+            Err(e) => {
+                assert!(n * %(es)d > %(limit)d * %(unit)d, "C05: encode fails although the array fits its size/count field");
+                assert!(matches!(e, EncodeError::%(variant)s { .. }), "C05: overflow reported with the wrong EncodeError variant");
+            }
+        }
+        std::mem::forget(v);
+    }
+'''
+
+
+def windowed(out, cov):
+    import os
+    from . import build, kanirun, model as M
+    from .rsreplay import NativeRunner
+    f = M.File('little', [M.packet('CW', [M.count('x', 8), M.array('x', width=8)]),
+                          M.packet('SW', [M.size('x', 8), M.array('x', width=16)])])
+    pdl = M.to_pdl(f)
+    text = build.pdlc(pdl, 'rust', (), 'c05_window')
+    hs = WINDOW % dict(t='CW', lo=253, hi=258, unwind=261, cap=300, es=1, limit=255, unit=1, per=1, variant='CountOverflow')
+    hs += WINDOW % dict(t='SW', lo=125, hi=130, unwind=133, cap=300, es=2, limit=255, unit=1, per=2, variant='SizeOverflow')
+    mod = text + '\n#[cfg(kani)]\nmod h {\n    use super::*;\n    use crate::support::*;\n' + hs + '}\n'
+    crate = os.path.join(build.WORK, 'kani', 'C05', 'window')
+    kanirun.write_crate(crate, {'m_window': mod})
+    res, log_text = kanirun.cargo_kani(crate, kanirun.shard_target(0), jobs=2, harness_timeout=2400, total_timeout=6000)
+    wcov = {'harnesses': [], 'note': 'vec![0; n], n symbolic in [limit-2, limit+3]; element content fixed to 0 (cut)'}
+    runner = None
+    for t, lo in (('CW', 253), ('SW', 125)):
+        r = res.get(f'm_window::c05w_{t}')
+        if r is None:
+            out.inconclusive_item(f'windowed harness c05w_{t}: no result')
+            continue
+        wcov['harnesses'].append({'harness': f'c05w_{t}', 'verdict': r.status, 'cbmc_time_s': r.time_s, 'failed_checks': r.failed_checks[:3]})
+        if r.status == 'success' and not r.unsat_covers:
+            continue
+        if r.status != 'failed':
+            out.undecided_item(f'windowed harness c05w_{t}: {r.status}')
+            continue
+        # replay: every length of the window natively
+        if runner is None:
+            arms = '\n'.join(f'        ("{x}", "win") => {{ let n = words[0] as usize; let v = {x} {{ x: vec![0; n] }}; '
+                             f'match v.encode_to_vec() {{ Ok(b) => format!("OK len={{}} first={{}}", b.len(), b[0]), Err(e) => format!("ERR {{}}", evariant(&e)) }} }}'
+                             for x in ('CW', 'SW'))
+            runner = NativeRunner(text, ['CW', 'SW'], '', arms)
+        es, variant = (1, 'CountOverflow') if t == 'CW' else (2, 'SizeOverflow')
+        bad, obs = False, {}
+        for n in range(lo, lo + 6):
+            o = runner.run('release', t, 'win', b'', [n])
+            obs[str(n)] = o
+            fits = n * es <= 255
+            if o.startswith('OK') != fits or (not fits and variant not in o):
+                bad = True
+        sig = {'backend': 'rust', 'kind': 'c05w', 'type': t, 'checks': ' | '.join(sorted(set(r.failed_checks)))}
+        rec = {'property': PROP, 'engine': 'E-KANI', 'harness': f'c05w_{t}', 'pdl': pdl, 'failed_checks': r.failed_checks, 'native': obs, 'sig': sig}
+        out.violation(sig, rec, reproduced=bad)
+    if runner:
+        runner.cleanup()
+    cov['windowed_lengths'] = wcov
